@@ -25,6 +25,14 @@ CLAIMS = {
             "messages must round-trip. BlockOption.decode is additionally translated to z3 bit-vectors (E2).",
             "reference codec vf/refcodec.py written from the RFC; byte-string lengths concrete per obligation; option numbers by index or pre-populated enum ranges; CPython UTF-8 codec trusted",
             TECH_E1 + "; AST->z3 bit-vector translation for BlockOption.decode", "DESIGN.md 5 C01"),
+    "C04": ("On stack S as server, a request and 2 (3) further copies arrive from endpoints chosen by symbolic index at instants "
+            "that are solver variables over three exchange lifetimes (also relative to the handler's symbolic completion instant "
+            "and the empty-ACK timer), for fast/slow/failing/response-suppressing handlers, CON and NON, optionally with a "
+            "transport error reported for the peer in between; a monitor written from the statement checks handler invocations "
+            "per (endpoint, ID, lifetime) and that each copy triggers exactly the byte-identical acknowledgement already sent, or "
+            "nothing.",
+            "fake datagram transport, SimLoop, integer tuning (EXCHANGE_LIFETIME 208000 ticks), at most two symbolic instants per obligation, copies at exact deadlines accept both orders",
+            TECH_E1, "DESIGN.md 5 C04"),
     "C09": ("On stack S as server, handler outcome (13 kinds incl. every renderable error class, arbitrary exceptions such as "
             "KeyError/IndexError/TimeoutError, wrong return types, failing error renderers) x method x CON/NON x fast/slow x "
             "known/unknown path x nested site x concurrent failing/succeeding neighbour, all by symbolic index, are run to "
